@@ -17,6 +17,17 @@ def run(prop, eng, tier):
     true_ob = [o for o in st if "true" in o["name"]]
     if not false_ob or any(o["status"] != "refuted" for o in false_ob) or any(o["status"] != "proved" for o in true_ob):
         raise RuntimeError("cvc vacuity self-test failed (false obligation must be refuted, true one proved)")
+    if tier == "thorough" and not _CACHE.get("selftest_done"):
+        # mutation self-test of the C engine on scratch copies (26 broken variants must each fail an
+        # obligation that is proved on the real file)
+        import subprocess, sys
+
+        _CACHE["selftest_done"] = True
+        p = subprocess.run([sys.executable, "-m", "engine.cvc.selftest", "--repo", repo], capture_output=True, text=True,
+                           cwd=os.path.dirname(os.path.dirname(os.path.abspath(__file__))),
+                           env=dict(os.environ, PYTHONPATH=os.path.join(os.path.dirname(os.path.dirname(os.path.abspath(__file__))), ".deps")))
+        if p.returncode != 0:
+            raise RuntimeError("engine/cvc mutation self-test failed:\n" + (p.stdout + p.stderr)[-1500:])
     sel = eng.get("select", [(".*", ".*")])
     items = []
     for o in res:
